@@ -95,7 +95,7 @@ def Dict.insert (H : Bytes → UInt32) (d : Dict) (value : Bytes) (len : Nat) (z
   | (.eint, ht) => (.eint, { ht := ht })
   | (.full, ht) => (.full, { ht := ht })
 
-/-- `dict_insert` after the candidate repair `fixes/F50.diff`: look the string up first (by length); a new string is copied
+/-- `dict_insert` after the candidate repair `fixes/F110.diff`: look the string up first (by length); a new string is copied
 (or adopted) *before* it is stored and inserted with `lyht_insert_no_check`, so no record ever points into the caller's
 buffer and a resize never compares records. -/
 def Dict.insertFixed (H : Bytes → UInt32) (d : Dict) (value : Bytes) (len : Nat) (_zc alias : Bool) : DRes × Dict :=
